@@ -299,6 +299,37 @@ class Adapter:
             raise Mismatch('identity', 'asked for %s[%d], got %r' % (e, k, o))
         return o
 
+    def obtain_references(self, view):
+        """Obtain objects as bare references (identity-map seeds: primary key known, row not loaded), so that later
+        calls work on objects whose attributes are NOT_LOADED: the items of a many-to-many collection come from the
+        link table alone; the target of B.a comes from B's row. State-preserving reads (C10, C23)."""
+        w = self.w
+        self.touched = True
+        n = 0
+        by_links = w.links and (w.rel == 'm2m' or self.rng.random() < 0.6)    # 'mix': one way or the other
+        if by_links:
+            for a in sorted(view['liveA']):
+                o = self.obj('A', a)
+                coll = o.ls if w.rel == 'mix' else o.bs
+                got = set()
+                for x in coll:
+                    got.add(self.reg('B', x.id, x).id)
+                n += 1
+                if got != set(fmap(view['links'])[a]):
+                    raise Mismatch('read', 'before the first call: link collection of A[%d] is %r, the specification says %r'
+                                   % (a, sorted(got), sorted(fmap(view['links'])[a])))
+        else:
+            for b in w.B.select()[:]:
+                self.reg('B', b.id, b)
+                ref = b.a
+                n += 1
+                want = fmap(view['ref'])[b.id]
+                if (ref.id if ref is not None else 0) != want:
+                    raise Mismatch('read', 'before the first call: B[%d].a is %r, the specification says %r' % (b.id, ref, want))
+                if ref is not None:
+                    self.reg('A', ref.id, ref)
+        return n
+
     def reg_all(self, e, objs):
         return set(self.reg(e, o.id, o).id for o in objs)
 
@@ -945,10 +976,12 @@ class Driver:
         self.last_actions = None
         # probe: 'all' - free reads / projections around every modification (each of them flushes pending changes);
         #        'end' - none until the end of the behaviour, so that unflushed changes of several calls accumulate
+        #        'seed'  - like 'end', but before the first call objects are obtained as bare references (rows not loaded):
+        #                  B objects from the link table of a many-to-many collection, A objects as B rows' `a` attribute
         #        'prime' - like 'end', but every collection, count and attribute is read once before the first call,
         #                  so that the calls work on loaded collections and known counts
         if probe is None:
-            probe = rng.choice(('all', 'end', 'prime'))
+            probe = rng.choice(('all', 'end', 'prime', 'seed'))
         u0 = init if init is not None else rng.choice(g.inits)
         w.reset(g.nodes[u0]['db'])
         ad = Adapter(w, rng)
@@ -975,7 +1008,7 @@ class Driver:
                     break
                 if not acts:
                     break
-                if ad.touched or probe == 'prime':
+                if ad.touched or probe in ('prime', 'seed'):
                     acts = {k: v for k, v in acts.items() if k[0] != 'BulkDelete'}
                     if not acts:
                         break
@@ -999,6 +1032,11 @@ class Driver:
                     primed = True
                     self.stats['free_reads'] = self.stats.get('free_reads', 0) + \
                         self.free_reads(ad, belief, ('Delete', 'A', 0, 0, 0), 'before the first call')
+                if probe == 'seed' and not primed and w.session is not None and key[0] != 'Begin':
+                    primed = True
+                    view0 = self.agreed(belief, 'view')
+                    if view0 is not None and self.can_project(belief):
+                        self.stats['free_reads'] = self.stats.get('free_reads', 0) + ad.obtain_references(view0)
                 if is_write and probe == 'all' and rng.random() < 0.6:
                     # prime the caches (counts, loaded collections, query results) before the modification
                     self.stats['free_reads'] = self.stats.get('free_reads', 0) + self.free_reads(ad, belief, key, 'before')
@@ -1064,7 +1102,7 @@ class Driver:
                 elif cur is not None and probe == 'all' and rng.random() < 0.15 and self.can_project(belief):
                     ad.project(cur, 'random-point')
                     self.stats['projections'] += 1
-            if probe in ('end', 'prime') and last_write is not None and w.session is not None:
+            if probe in ('end', 'prime', 'seed') and last_write is not None and w.session is not None:
                 # everything the calls of this behaviour left pending is still unflushed here
                 n = self.free_reads(ad, belief, ('Delete', 'A', 0, 0, 0), 'at the end')     # 'Delete' widens to all live objects
                 self.stats['free_reads'] = self.stats.get('free_reads', 0) + n
@@ -1109,10 +1147,10 @@ class Driver:
         if True:
             if True:
                 if len(plan) <= 2:
-                    for mode in ('end', 'prime', 'all'):
+                    for mode in ('end', 'prime', 'seed', 'all'):
                         self.run_behaviour(0, plan=list(plan), init=init, probe=mode)
                 else:
-                    self.run_behaviour(0, plan=list(plan), init=init, probe='end' if hash(plan) % 2 else 'prime')
+                    self.run_behaviour(0, plan=list(plan), init=init, probe=('end', 'prime', 'seed')[hash(plan) % 3])
                 if len(plan) < depth and self.last_actions:
                     for k in self.last_actions:
                         nxt.append(plan + (k,))
